@@ -154,7 +154,31 @@ func structFieldKey(base ssa.Value, idx int) (fieldKey, bool) {
 	if !ok || idx >= st.NumFields() {
 		return fieldKey{}, false
 	}
+	fieldTextual[typeName(t)+"."+st.Field(idx).Name()] = isTextType(st.Field(idx).Type())
 	return fieldKey{rootOf(base), typeName(t), st.Field(idx).Name()}, true
+}
+
+// fieldTextual records, per "Type.field" source label, whether the field itself holds text (string, []string, map of
+// strings) as opposed to being a container the text travelled through (a slice of rules, a yaml node, a line number).
+var fieldTextual = map[string]bool{}
+
+func isTextType(t types.Type) bool {
+	switch u := t.Underlying().(type) {
+	case *types.Basic:
+		return u.Info()&types.IsString != 0
+	case *types.Slice:
+		return isTextType(u.Elem())
+	case *types.Array:
+		return isTextType(u.Elem())
+	case *types.Map:
+		return isTextType(u.Elem()) || isTextType(u.Key())
+	case *types.Pointer:
+		if _, isStruct := u.Elem().Underlying().(*types.Struct); isStruct {
+			return false
+		}
+		return isTextType(u.Elem())
+	}
+	return false
 }
 
 // visible: the taint a read of key can observe: stores rooted at the same type, or at a type whose values are embedded
